@@ -156,6 +156,16 @@ def main(argv):
             ctx = mp.get_context("fork")
             with ctx.Pool(nproc, maxtasksperchild=1) as pool:
                 results = pool.map(verify_one, tasks, chunksize=1)
+    # ---- second chance for undecided functions: re-verify them one at a time with all cores (solver give-ups and
+    # feasibility time-outs of the first pass are mostly contention between the parallel workers)
+    for i, r in enumerate(results):
+        if r.get("status") == "ok" and any(o.get("status") == "undecided" for o in r.get("obligations", [])):
+            r2 = verify_one((tuple(P.sidecars), r["key"], max(1, args.jobs)))
+            n1 = sum(o.get("status") == "undecided" for o in r["obligations"])
+            n2 = sum(o.get("status") == "undecided" for o in r2.get("obligations", [])) if r2.get("status") == "ok" else n1
+            if r2.get("status") == "ok" and n2 < n1:
+                r2["retried"] = True
+                results[i] = r2
     # ---- bounded stand-ins
     bounded = []
     for b in P.bounded:
